@@ -502,21 +502,27 @@ func c03Specs(tier string) []*clustermc.Spec {
 		leaves       bool
 		rr           bool
 		bg           bool // a key in every one of 7 partitions, written in the initial state
+		ports        []int
 	}
-	cfs := []cf{{1, 1, 1 << 16, false, false, false}, {2, 2, 128, true, false, false}, {1, 2, 128, false, false, false},
+	cfs := []cf{{1, 1, 1 << 16, false, false, false, nil}, {2, 2, 128, true, false, false, nil}, {1, 2, 128, false, false, false, nil},
 		// read-repair on: a Get during a hand-over writes to the members it found stale
-		{2, 2, 1 << 16, false, true, false}, {1, 1, 128, false, true, false},
+		{2, 2, 1 << 16, false, true, false, nil}, {1, 1, 128, false, true, false, nil},
 		// seven partitions with a key in each, from one member to three: some partition moves twice
 		// (first owner -> second -> third) before the first owner has handed anything over
-		{1, 1, 128, false, false, true}}
+		{1, 1, 128, false, false, true, nil},
+		// member names chosen (Opts.PortOf) so that two of three partitions move to the second member at
+		// the first join and on to the third member at the second join: a write on the second member in
+		// between keeps it listed, the partition then has THREE listed owners (first owner still holding
+		// the initial keys, second owner holding the write, third owner empty)
+		{1, 1, 1 << 16, false, false, true, []int{0, 2, 4}}}
 	depth, maxN := 6, 3
 	if !quick {
 		depth = 8
-		cfs = append(cfs, cf{1, 1, 128, false, false, false}, cf{2, 1, 1 << 16, false, false, false}, cf{2, 2, 1 << 16, true, false, false})
+		cfs = append(cfs, cf{1, 1, 128, false, false, false, nil}, cf{2, 1, 1 << 16, false, false, false, nil}, cf{2, 2, 1 << 16, true, false, false, nil})
 	}
 	// three replicas: a backup partition has two current owners, a join changes the closest-3 set
 	// and a backup fragment is handed to BOTH of them; explored from 3 to 4 members, less deep
-	cfs = append(cfs, cf{3, 3, 128, false, false, false})
+	cfs = append(cfs, cf{3, 3, 128, false, false, false, nil})
 	var out []*clustermc.Spec
 	for _, c := range cfs {
 		depth, maxN := depth, maxN
@@ -526,11 +532,14 @@ func c03Specs(tier string) []*clustermc.Spec {
 			// partitions on 4 members: an input the library does not support, see DESIGN 14)
 			depth, maxN, parts = depth-3, 4, 7
 		}
-		if c.bg {
+		if c.bg && c.ports == nil {
 			parts = 7
 		}
 		p := &c03Params{Name: fmt.Sprintf("N0=%d R=%d table=%d leaves=%v", c.n0, c.r, c.table, c.leaves), Depth: depth, MaxN: maxN, Leaves: c.leaves, Background: c.r == 3 || c.bg,
-			Opts: simcluster.Opts{N: c.n0, Replicas: c.r, WriteQ: 1, ReadQ: 1, Partitions: parts, TableSize: c.table, ReadRepair: c.rr}}
+			Opts: simcluster.Opts{N: c.n0, Replicas: c.r, WriteQ: 1, ReadQ: 1, Partitions: parts, TableSize: c.table, ReadRepair: c.rr, PortOf: c.ports}}
+		if c.ports != nil {
+			p.Name += fmt.Sprintf(" names=%v", c.ports)
+		}
 		if c.rr {
 			p.Name += " read-repair"
 		}
